@@ -118,9 +118,10 @@ nanlen = partial(_len, func="nanlen")
 def _var_std_wrapper(group_idx, array, engine, *, axis=-1, **kwargs):
     # Attempt to increase numerical stability by subtracting the first element.
     # https://en.wikipedia.org/wiki/Algorithms_for_calculating_variance
-    # Cast any unsigned types first
-    dtype = np.result_type(array, np.int8(-1) * array[0])
-    array = array.astype(dtype, copy=False)
+    # Integers (and booleans) are shifted in floating point: the difference of two
+    # members can exceed the range of a narrow or unsigned integer dtype
+    if array.dtype.kind in "iub":
+        array = array.astype(np.float64)
     first = _get_aggregate(engine).aggregate(group_idx, array, func="nanfirst", axis=axis)
     array = array - first[..., group_idx]
     return _get_aggregate(engine).aggregate(group_idx, array, axis=axis, **kwargs)
